@@ -14,7 +14,7 @@ RULE_TEXT = "obligation = (rule, constant / guard / table entry); evaluations = 
 
 
 def run(ctx) -> None:
-    for name, fn in (("N1", varint.rule_N1), ("N8", varint.rule_N8), ("N2", varint.rule_N2), ("N3", varint.rule_N3), ("N7", varint.rule_N7), ("N4", codec.rule_N4), ("T1", codec.rule_T1), ("Z1", codec.rule_Z1), ("T6", codec.rule_T6)):
+    for name, fn in (("N1", varint.rule_N1), ("N8", varint.rule_N8), ("N2", varint.rule_N2), ("N3", varint.rule_N3), ("N7", varint.rule_N7), ("N4", codec.rule_N4), ("N4f", codec.rule_W1f), ("T1", codec.rule_T1), ("Z1", codec.rule_Z1), ("T6", codec.rule_T6)):
         ctx.rules_run.append(name)
         fn(ctx)
     ctx.floor("N1", "constants", len([o for o in ctx.obs if o.rule == "N1"]), 8)
